@@ -7,7 +7,7 @@
    facts used about it are the hypotheses below, each of which the check tests on every fragment pair
    of every run. *)
 From Coq Require Import ZArith QArith List Permutation.
-From PV Require Import Gen.DomainConst Gen.CloneConst Clone.Pairs Clone.PairsFacts Clone.PairsProofs Clone.PairsBatch Clone.PairsOrder Clone.PairsWitness Clone.PairsTie.
+From PV Require Import Gen.DomainConst Gen.CloneConst Clone.Pairs Clone.PairsFacts Clone.PairsProofs Clone.PairsBatch Clone.PairsOrder Clone.PairsWitness Tie.CloneTie.
 Import ListNotations.
 Open Scope Z_scope.
 
